@@ -420,6 +420,120 @@ def clause4(P, res, hs):
                           witness=[f"bb{g[0]} edge {g[1]}" for g in gates] + [f"{e.loc}: {w}" for e, w in uses[:4]])
 
 
+ERR_ADTS = re.compile(r"error::(RecvError|TryRecvError|RecvErrorTimeout)$|RecvTimeoutOutcome$")
+LIVE_CALLS = re.compile(r"^(senders_alive|sender_count)$")
+LIVE_FIELDS = re.compile(r"(producer_dropped|sender_count|senders|is_disconnected)$")
+DEQ_CALLS = re.compile(r"^(pop|read_batch|deq_once|deq_run|drain_straggler|pop_node|pop_batch|pop_locked|pop_front|pop_receiver|try_recv_core|try_recv_batch_core|"
+                       r"try_recv_internal|try_recv_batch_internal|try_recv|take|drain)$")
+LOCK_FAMILIES = re.compile(r"^fibre::(mpmc_v2::core::|mpmc_v2::sync_impl::|internal::rendezvous::|spmc::topic::mailbox::|<spmc::topic::mailbox::)")
+LOCKED_OBS = re.compile(r"^(len|is_empty|drain_into|pop|pop_front|pop_receiver)$")
+C5_SKIP = {
+    r"^fibre::oneshot::": "oneshot: a single value guarded by a state machine (SENT/TAKEN/CLOSED); there is no queue to re-drain — decided by C01-3/C03",
+    r"^fibre::<?error::": "error type helpers",
+}
+
+
+def clause5(P, res):
+    rid = "C04-5"
+    res.rule(rid, "drain then Disconnected: wherever a receive form decides `Disconnected` itself (not on its own closed flag, not by forwarding a callee's "
+                  "Disconnected), every path from the last observation that no sender is alive to that decision passes another dequeue attempt (the "
+                  "straggler re-drain); in the lock-based cores the dequeue attempt, the liveness read and the decision share one critical section")
+    n = 0
+    for b in P.bodies.values():
+        if not b.id.startswith("fibre::") or not common.in_scope(b.id) or "::tests::" in b.id:
+            continue
+        if any(re.search(rx, b.id) for rx in C5_SKIP):
+            continue
+        cons = [e for e in b.events if e.kind == "assign" and e.data["r"]["k"] == "agg" and e.data["r"]["variant"] == "Disconnected" and ERR_ADTS.search(e.data["r"]["adt"])]
+        if not cons:
+            continue
+        # edges on which the decision is somebody else's
+        fwd_edges, closed_edges = [], []
+        for blk in range(len(b.blocks)):
+            if b.is_cleanup(blk):
+                continue
+            t = b.term(blk)
+            if t["k"] == "switch" and t.get("on", {}).get("kind") == "discr":
+                fwd_edges += b.edges_by_label(blk).get("Disconnected", [])
+            # decisions read off the waiter's own state byte are the closer's decision (it stored the terminal state under the
+            # channel lock when the last sender left): forwarded, not decided here
+            if t["k"] == "switch" and mir.derives_from_call(b, t["o"], lambda x: x.is_atomic and x.method == "load" and bool(x.args)
+                                                            and re.search(r"(^|\.)(state|done_flag)$", b.path_of_operand(x.args[0])) is not None):
+                fwd_edges += [(blk, x) for x in b.succ[blk]]
+            s = b.switch_source(blk)
+            if s and s["kind"] == "call" and s["event"].method == "load" and s["event"].args and re.search(r"\.closed$|closed_flag$", b.path_of_operand(s["event"].args[0])):
+                closed_edges += b.edges_by_label(blk).get("false" if s.get("neg") else "true", [])
+            if s and s["kind"] == "place" and re.search(r"\.closed$", s["path"]):
+                closed_edges += b.edges_by_label(blk).get("false" if s.get("neg") else "true", [])
+        L = []
+        for e in b.events:
+            if e.kind == "call" and LIVE_CALLS.match(e.method or "") and e.callee.startswith("fibre::"):
+                L.append(e)
+            elif e.kind == "call" and e.is_atomic and e.method == "load" and e.args and LIVE_FIELDS.search(b.path_of_operand(e.args[0])):
+                L.append(e)
+        # plain field reads under a lock: `core.sender_count == 0`, `guard.is_disconnected`
+        for blk in range(len(b.blocks)):
+            if b.is_cleanup(blk):
+                continue
+            s = b.switch_source(blk)
+            if s and s["kind"] == "cmp":
+                for side in (s["a"], s["b"]):
+                    pl = mir.op_place(side)
+                    if pl is not None:
+                        src = b.single_def(pl[0])
+                        if src is not None and src.kind == "assign" and src.data["r"]["k"] == "use":
+                            q = mir.op_place(src.data["r"]["o"])
+                            if q is not None and LIVE_FIELDS.search(b.path_of_place(q)):
+                                L.append(src)
+            if s and s["kind"] == "place" and LIVE_FIELDS.search(s["path"]):
+                ev = b.event_at((blk, len(b.blocks[blk]["s"])))
+                if ev is not None:
+                    L.append(ev)
+        D = [e for e in b.calls() if DEQ_CALLS.match(e.method or "") and (e.callee.startswith("fibre::") or "VecDeque" in e.callee or "Option" in e.callee and False)]
+        D += [e for e in b.calls() if e.is_atomic and e.method == "load" and e.args and re.search(r"\.head$", b.path_of_operand(e.args[0])) and "spmc" in b.id]
+        locky = bool(LOCK_FAMILIES.search(b.id))
+        if locky:
+            D += [e for e in b.calls() if LOCKED_OBS.match(e.method or "") and (e.callee.startswith("fibre::") or "VecDeque" in e.callee)]
+        if b.kind == "closure" and not L and not D:
+            for i, c in enumerate(cons):
+                res.holds(rid, f"{b.id}:Disconnected#{i}", "error-mapping closure (forwards a callee's failure)", where=c.loc, nontrivial=False)
+            continue
+        for i, c in enumerate(cons):
+            key = f"{b.id}:Disconnected#{i}"
+            if closed_edges and b.edges_dominate(closed_edges, c.pos):
+                res.holds(rid, key, "on the handle's own closed edge (C04-1)", where=c.loc, nontrivial=False)
+                continue
+            if fwd_edges and b.edges_dominate(fwd_edges, c.pos):
+                res.holds(rid, key, "forwards a callee's Disconnected", where=c.loc, nontrivial=False)
+                continue
+            n += 1
+            reachL = [l for l in L if c.pos in b.pos_reach_set(l.pos)]
+            if not reachL:
+                res.unclassified(rid, key, f"Disconnected decided at {c.loc} without a recognisable sender-liveness observation in this function", where=c.loc)
+                continue
+            if locky:
+                doms = [d for d in D if b.dominated_by_any(c.pos, {d.pos})]
+                if doms:
+                    res.holds(rid, key, f"lock-based core: dequeue attempt at {doms[-1].loc} precedes the decision in the same critical section", where=c.loc)
+                else:
+                    res.violated(rid, key, f"Disconnected is decided at {c.loc} without a dequeue attempt before it: buffered values are abandoned", where=c.loc)
+                continue
+            bad = None
+            for l in reachL:
+                others = frozenset(x.pos for x in L if x is not l) | frozenset(d.pos for d in D)
+                if c.pos in b.pos_reach_set(l.pos, removed=others):
+                    bad = l
+                    break
+            if bad is None:
+                res.holds(rid, key, f"every path from the liveness read(s) {[l.loc.rsplit(':', 1)[-1] for l in reachL]} to the decision re-drains", where=c.loc,
+                          witness=[f"liveness {l.loc}" for l in reachL] + [f"dequeue {d.loc}" for d in D[:6]])
+            else:
+                res.violated(rid, key, f"a path from the sender-liveness read at {bad.loc} reaches `Disconnected` at {c.loc} without another dequeue attempt: a value published by the last "
+                             "sender just before it left (after this receiver's previous empty check) is lost", where=c.loc)
+    if n < 25:
+        res.violated(rid, "disconnect-decisions", f"expected >= 25 self-decided Disconnected sites, found {n}")
+
+
 def run(P, ctx):
     res = Result("C04")
     res.extra["explanation"] = ("Closed-gate, last-handle, conversion, drop-once and drain-before-Disconnected clauses "
@@ -430,4 +544,5 @@ def run(P, ctx):
     clause2(P, res, hs)
     clause3(P, res, hs)
     clause4(P, res, hs)
+    clause5(P, res)
     return res
